@@ -543,6 +543,9 @@ impl AutosarModel {
         filename: P,
         strict: bool,
     ) -> Result<(ArxmlFile, Vec<AutosarDataError>), AutosarDataError> {
+        // verification seam: inside this function `std::fs` is the (possibly simulated) file system of the verif module
+        #[cfg(feature = "verif")]
+        use crate::verif::std_shim as std;
         let filename_buf = filename.as_ref().to_path_buf();
         let buffer = std::fs::read(&filename_buf).map_err(|err| AutosarDataError::IoErrorRead {
             filename: filename_buf.clone(),
@@ -652,6 +655,9 @@ impl AutosarModel {
     ///
     ///  - [`AutosarDataError::IoErrorWrite`]: There was an error while writing a file
     pub fn write(&self) -> Result<(), AutosarDataError> {
+        // verification seam: inside this function `std::fs` is the (possibly simulated) file system of the verif module
+        #[cfg(feature = "verif")]
+        use crate::verif::std_shim as std;
         for (pathbuf, filedata) in self.serialize_files() {
             std::fs::write(pathbuf.clone(), filedata).map_err(|err| AutosarDataError::IoErrorWrite {
                 filename: pathbuf,
